@@ -412,6 +412,15 @@ Proof.
     inversion H; subst; cbn. eapply assign_tokens_int_cnt; eauto.
   - destruct (assign_tokens_str _ _ _ _ _) as [[c1 l]|?|?] eqn:E; cbn [bind] in H; try discriminate.
     inversion H; subst; cbn. eapply assign_tokens_str_cnt; eauto.
+  - destruct (match val a with VLevel z b => (z, b) | _ => (0%Z, false) end) as [z set].
+    destruct v as [|x r].
+    + destruct (set && negb (a_mix d)); [discriminate|].
+      destruct (run_checks_num _ _) as [[]|?|?]; cbn [bind] in H; try discriminate.
+      inversion H; subst; cbn. split; [lia|auto].
+    + destruct (negb (a_mix d) && hasval a); [discriminate|].
+      destruct (run_checks _ _) as [[]|?|?]; cbn [bind] in H; try discriminate.
+      destruct (lex_int _) as [n|?|?]; cbn [bind] in H; try discriminate.
+      inversion H; subst; cbn. split; [lia|auto].
 Qed.
 
 Definition count_uses (i : nat) (us : list use) : nat := length (filter (fun u => Nat.eqb (use_index u) i) us).
